@@ -13,6 +13,7 @@ import (
 	"testing/synctest"
 
 	goat "github.com/avos-io/goat"
+	"google.golang.org/protobuf/proto"
 )
 
 // TestC19Chan drives the real NewGoatOverChannel lock-step inside synctest
@@ -273,5 +274,27 @@ func TestC19Chan(t *testing.T) {
 			}
 		}
 		rec(nil)
+	}
+	// the upper end of the body range (1 MiB and just below, the largest envelope): the channel transport
+	// carries envelopes by reference, so size cannot matter - which is what this shows: what is read is the
+	// envelope that was written, field for field, for an unbuffered and a buffered channel
+	for _, capacity := range []int{0, 1} {
+		for k, g := range genEdgeEnvelopes(newRand(1916)) {
+			if want(idx) {
+				em.Marker("begin", idx)
+				ch := make(chan *goat.Rpc, capacity)
+				rw := goat.NewGoatOverChannel(ch, ch)
+				werr := make(chan error, 1)
+				go func() { werr <- rw.Write(context.Background(), g.E) }()
+				got, rerr := rw.Read(context.Background())
+				we := <-werr
+				same := we == nil && rerr == nil && got != nil && proto.Equal(got, g.E) && len(got.GetBody().GetData()) == len(g.E.Body.Data)
+				em.Emit(Rec{Idx: idx, Kind: "chan-edge-size", Desc: map[string]any{"cap": capacity, "envelope": describeRpc(g.E), "k": k},
+					Obs: map[string]any{"write_err": fmt.Sprint(we), "read_err": fmt.Sprint(rerr), "equal": same},
+					Coq: fmt.Sprintf("CAssert 2 %s", coqBool(same)), Tags: []string{"chan:edge-size"}})
+				em.Marker("end", idx)
+			}
+			idx++
+		}
 	}
 }
